@@ -222,6 +222,7 @@ func checkC03(c *ProgCase) *Outcome {
 			if p := run.Guard(func() {
 				parsed := en.E.Parse(r.Src)
 				_ = run.Guard(func() { en.E.CompileExpr(parsed, run.TypeEnv(siblingTypes(c.Env))) })
+				_ = run.Guard(func() { en.E.CompileExpr(parsed, run.TypeEnv(siblingKinds(c.Env))) })
 				cl = en.E.CompileExpr(parsed, run.TypeEnv(c.Env))
 			}); p != nil {
 				return bad("%s: Expr.Parse + Expr.CompileExpr (the tree compiled before against sibling types) fails: %s; Compile on the text succeeds\n src: %s\n env: %s", be, p.Text, clip(r.Src), envSummary(c))
